@@ -33,7 +33,7 @@ func TestVerif(t *testing.T) {
 			"Family NAMES: every directory tree below the added directory with nesting depth <= 3, siblings up to permutation, entry kinds {directory (hence empty directory), empty file, 1-byte file, 70KiB+1 file, symlink to a sibling, symlink ../x to an entry of the parent directory, dangling symlink} x name class {ascii, 101-byte, non-ASCII} chosen per entry (files 0644, directories 0755): quick <= 2 entries under each name of the added directory {top, nest/top, non-ASCII, 101-byte} and 3 entries under top; thorough <= 3 entries under each of the four names, 4 entries with one name class for the whole tree under top, 5 entries with ascii names under top. " +
 			"Family MODES: every tree with <= 3 entries over {directory 0755|0700|0777, 1-byte file 0644|0600|0755|0700|0444|0666} x (mode of the added directory {0755,0700,0777} under the inherited umask, 0755 under umask 0077 set for the case); thorough adds the 4-entry trees with 0755 under both umasks. " +
 			"Family ODD: every subset of <= 3 [thorough 4] out of ten odd entries below the added directory: names beginning with dots that are neither '.' nor '..' (..hidden, a directory '...', .../..x, .dot) and symbolic links whose targets are not in shortest form (./x, a trailing slash, a doubled slash, missing/../x, a target starting with two dots). " +
-			"Family BLOBS: every ordered selection of <= 3 [thorough 4] distinct items out of 9 added side by side: three files with the same bytes (one under a nested name, different modes), two 70KiB files with the same bytes (one under a 101-byte name), two empty files (one non-ASCII name), two directories with the same content under different names. " +
+			"Family BLOBS: every ordered selection of <= 3 [thorough 4] distinct items out of 10 added side by side (one of them a directory added under a media type of the caller's own): three files with the same bytes (one under a nested name, different modes), two 70KiB files with the same bytes (one under a 101-byte name), two empty files (one non-ASCII name), two directories with the same content under different names. " +
 			"Oracle (os, crypto/sha256, compress/gzip, archive/tar only): Add's descriptor carries the name, digest/size = sha256/length of the bytes the source store serves, the recorded uncompressed digest = sha256 of the gunzipped bytes, the archive decoded with archive/tar lists exactly the source entries (type, bytes, link target, mode); the restored tree is compared recursively below the added name (paths, types, bytes, link targets, modes masked with the process umask or exact with PreservePermissions; the added directory's own mode only with PreservePermissions; single files' modes and timestamps never); with SkipUnpack the stored file must be the descriptor's bytes; " +
 			"every name must materialise, names sharing bytes included, except that under ForceCAS one name per group of equal bytes suffices; per tree and TarReproducible setting a second copy of the tree with different atime/mtime everywhere is added to a second store: with TarReproducible the descriptors must be deeply equal; " +
 			"for every directory, TarReproducible setting and PreservePermissions setting a direct Push of the true blob with a well-formed but wrong uncompressed digest (digest of the empty string; the digest of the compressed bytes) must fail. " +
@@ -502,7 +502,7 @@ func (r *run) evalSource(tr bool) {
 	descs := make([]ocispec.Descriptor, len(items))
 	blobs := make([][]byte, len(items))
 	for k, it := range items {
-		d, err := src.Add(ctx, it.name, "", addPath(it, k, false))
+		d, err := src.Add(ctx, it.name, it.mediaType, addPath(it, k, false))
 		if err != nil {
 			r.fail(fail("Add failed ("+itemClass(it)+"): "+errWords(err), "%s", r.scrub(err)), where)
 			return
@@ -548,7 +548,7 @@ func (r *run) evalSource(tr bool) {
 	hmust(err)
 	src2.TarReproducible = tr
 	for k, it := range items {
-		d2, err := src2.Add(ctx, it.name, "", addPath(it, k, false))
+		d2, err := src2.Add(ctx, it.name, it.mediaType, addPath(it, k, false))
 		if err != nil {
 			r.fail(fail("Add failed ("+itemClass(it)+"): "+errWords(err), "%s", r.scrub(err)), where+" (second copy of the tree)")
 			break
